@@ -4,6 +4,6 @@ CONSTANTS
   NV = 3
   BDepth = 1
   Obs <- ObsEmit
-INVARIANTS TypeOK SortedNoDup GetAfterSet RemoveOnce IterLaw
+INVARIANTS TypeOK SortedNoDup GetAfterSet RemoveOnce FillLaw IterLaw
 PROPERTIES MutatorsOnly SlotsIndependent DupIsEqual
 CHECK_DEADLOCK FALSE
